@@ -1586,3 +1586,4 @@ META['explanation'] += ' ' + "Further: memoised functions' results are never mut
 
 META['explanation'] += ' ' + 'Round 13: the adjacency chain of is_next_on_keyboard, tabulated over the key offsets (drow, dpos), is symmetric, irreflexive and local; a local bound to the result of a detector helper that can return None is used only under a presence guard.'
 META['technique'] = META.get('technique', '') + ' + finite tabulation of the adjacency chain over key offsets (symmetry / locality) + optional-result guard rule'
+META['explanation'] += ' ' + 'Round 14: every merge of the recursive keyboard-walk result is unconditional or guarded by the emptiness of the merged list; the last detector leaves no section untyped.'
